@@ -27,6 +27,9 @@ void sh_fail_next_connect(int tag, int err) { (void)tag; (void)err; }
 void sh_eintr_at(int n) { (void)n; }
 int sh_blocking_polls(void) { return 0; }
 void sh_fail_resource_at(int n, int err) { (void)n; (void)err; }
+void sh_fail_resource_at2(int n, int skip) { (void)n; (void)skip; }
+int sh_resource_fault2_hit(void) { return 0; }
+const char *sh_resource_fault2_name(void) { return ""; }
 int sh_resource_calls(void) { return 0; }
 const char *sh_resource_call_name(int idx) { (void)idx; return "?"; }
 int sh_resource_fault_hit(void) { return 0; }
